@@ -23,6 +23,8 @@ NPROC = int(os.environ.get('VERIF_NPROC', '0')) or min(16, os.cpu_count() or 1)
 MAX_SAMPLES = 14
 MAX_BUCKETS = int(os.environ.get('VERIF_MAX_BUCKETS', '6'))   # distinct violation buckets reported per run
 WATCHDOG_S = float(os.environ.get('VERIF_WATCHDOG', '20'))
+# measurement aid (never set by registered commands): run only one driver family — cases | parallel | hypothesis | atheris | corpus
+ONLY_LAYER = os.environ.get('VERIF_ONLY_LAYER')
 
 
 class HarnessError(Exception):
@@ -404,6 +406,8 @@ class Ctx:
 
     # ---- serial driver
     def run_cases(self, kind, cases):
+        if ONLY_LAYER and not self.worker and ONLY_LAYER != 'cases':
+            return
         checks = self.mod.CHECKS
         rec = self.rec
         for case in cases:
@@ -414,6 +418,8 @@ class Ctx:
         nshards = nshards or NPROC
         if self.worker:
             raise HarnessError('nested run_parallel')
+        if ONLY_LAYER and ONLY_LAYER != 'parallel':
+            return
         args = [(self.mod.__name__, fn_name, k, nshards, self.seed, self.tier, tuple(extra)) for k in range(nshards)]
         if NPROC <= 1:
             results = [_worker(a) for a in args]
@@ -430,6 +436,8 @@ class Ctx:
     def run_hypothesis(self, kind, strategy, max_examples, seed_key=0, stateful=None):
         """collect-then-shrink: find a failing example, let Hypothesis shrink it while the *same bucket*
         keeps failing, record it, then restart with the remaining budget ignoring that bucket."""
+        if ONLY_LAYER and not self.worker and ONLY_LAYER != 'hypothesis':
+            return
         import hypothesis
         from hypothesis import settings, HealthCheck, Phase, given, seed as hseed
         checks = self.mod.CHECKS
@@ -495,6 +503,20 @@ class Ctx:
                     if det:
                         f['detail'] = det[0]
                 remaining -= min(state['n'], remaining)
+
+    # ---- coverage-guided driver (atheris / libFuzzer); see vlib/fuzz.py
+    def run_atheris(self, kind, runs, nprocs=None):
+        from vlib import fuzz
+        if self.worker:
+            raise HarnessError('run_atheris inside a worker')
+        if ONLY_LAYER and ONLY_LAYER != 'atheris':
+            return
+        if not fuzz.available():
+            # an additional layer: its absence is recorded, it is neither a pass of that layer nor an alarm
+            self.note('atheris not importable (setup.sh installs it into .deps): coverage-guided layer skipped')
+            self.rec.classes['atheris-unavailable'] += 1
+            return
+        fuzz.run_parent(self, kind, runs, nprocs or NPROC)
 
     def exhaustive(self, what):
         self.exhaustive_layers.append(what)
@@ -618,6 +640,8 @@ def load_corpus(prop_id):
 
 def run_corpus(ctx):
     n = 0
+    if ONLY_LAYER and ONLY_LAYER != 'corpus':
+        return
     for kind, case in load_corpus(ctx.prop_id):
         if kind not in ctx.mod.CHECKS:
             raise HarnessError('corpus entry with unknown kind %r' % kind)
